@@ -969,7 +969,7 @@ class SslErrorType(enum.IntEnum):
 
 @attr.s
 class SslErrorMessage(SslMessageBase):
-    error_type = attr.ib(validator=attr.validators.in_(SslErrorType))
+    error_type = attr.ib(converter=SslErrorType, validator=attr.validators.in_(SslErrorType))
 
     @classmethod
     def get_message_type(cls):
